@@ -90,7 +90,7 @@ Proof. exact once_fixed. Qed.
 Print Assumptions C05_once.
 
 (* The code as it is sends a second USERAUTH_SUCCESS: alice's password check is pending when guest (no
-   authentication needed) is admitted; the orphaned check then completes. *)
+   authentication needed) is let in; the orphaned check then completes. *)
 Theorem C05_once_refuted : exists w sid evs,
   let s := run w sid false evs in count_success (out s) = 2%nat /\ length (completed_as s) = 2%nat.
 Proof.
@@ -153,6 +153,36 @@ Proof.
   repeat split; assumption.
 Qed.
 Print Assumptions C05_restrictions_refuted.
+
+(* Conversely (BOTH variants, every combination of synchronous / asynchronous application callbacks): a
+   well-formed password request for a user whose password the application accepts, sent on a fresh
+   connection and left alone (drive = run what is ready, complete what is awaited, until nothing is left),
+   ends with the connection authenticated as that user, exactly one USERAUTH_SUCCESS, nothing pending. *)
+Theorem C05_accepts_password : forall w sid fixed ub pw U pw',
+  blen ub < 1024 -> blen pw < 4294967296 ->
+  prep w ub = Some U -> prep w pw = Some pw' ->
+  needs_auth w U = true -> pw_supported w = true -> pw_check w U pw' = PTrue ->
+  let p := 50 :: sstr ub ++ sstr S_CONN ++ sstr S_PASSWORD ++ ([0] ++ sstr pw) in
+  let s := drive w sid fixed 12 (step w sid fixed init (Deliver p)) in
+  dead s = false /\ complete s = true /\ username s = U /\ completed_as s = [U] /\ out s = [RSuccess] /\
+  conts s = [].
+Proof. exact accepts_password. Qed.
+Print Assumptions C05_accepts_password.
+
+(* ... and a signed publickey request with a key listed in the user's authorized keys, whose signature
+   verifies over string(session id) ++ the request bytes up to and including the key blob, is accepted
+   with exactly the options of the matching authorized_keys entry. *)
+Theorem C05_accepts_publickey : forall w sid fixed ub alg kb sg U es k o,
+  blen ub < 1024 -> blen alg < 4294967296 -> blen kb < 4294967296 -> blen sg < 4294967296 ->
+  prep w ub = Some U -> zlist_eqb U [] = false -> needs_auth w U = true ->
+  ak_of w (Some U) = Some es -> decode w kb = BKey k -> ak_validate es k None false = Some o ->
+  let head := 50 :: sstr ub ++ sstr S_CONN ++ sstr S_PUBLICKEY ++ [1] ++ sstr alg ++ sstr kb in
+  verify w k (sstr sid ++ head) sg = true ->
+  let s := drive w sid fixed 12 (step w sid fixed init (Deliver (head ++ sstr sg))) in
+  (dead s = false /\ complete s = true /\ username s = U /\ completed_as s = [U] /\ out s = [RSuccess] /\
+   conts s = []) /\ key_opts s = o /\ cert_opts s = None.
+Proof. exact accepts_publickey. Qed.
+Print Assumptions C05_accepts_publickey.
 
 (* non-vacuity: an honest password session on the repaired variant ends authenticated *)
 Example C05_example_password :
